@@ -53,6 +53,8 @@ def build(desc):
         return name, args
     if name in ("get_num_cells", "cell_area"):
         return name, [desc[1]]
+    if name in ("get_num_cells_float", "cell_area_float"):       # the same resolution spelled as an integral float
+        return name[:-6], [float(desc[1])]
     if name == "get_res0_cells":
         return name, []
     if name == "compact":
